@@ -130,6 +130,8 @@ FsRemove(h, p, pk) ==
   /\ dir' = DirDel(p)
   /\ viol' = viol \cup FlagIf(LockKind(pk) /\ Ino(p).creator # h, "C08_OwnerOnly")
                   \cup FlagIf(pk = PKTab /\ p \in Range(ListNames), "C05_NoGcOfListed")
+                  \* ... in particular by a handle whose last reading of tables.list is out of date (C09: a stale handle leaves the directory alone)
+                  \cup FlagIf(pk = PKTab /\ p \in Range(ListNames) /\ lastRead[h] # ListNames, "C09_StaleRemovesListed")
                   \cup FlagIf(pk = PKList, "C05_ListRemoved")
   /\ UNCHANGED <<ino, lver, committed, cmarks, lastRead, tabHist>>
 
@@ -229,7 +231,7 @@ C08_OwnerOnly == viol \cap {"C08_OwnerOnly", "C08_NoStolenCommit", "C08_WriteWit
 
 (* C09 (concurrent half): the commit rename is performed only by a handle   *)
 (* whose last reading of tables.list is still the current list              *)
-C09_StaleNeverCommits == "C09_StaleCommit" \notin viol
+C09_StaleNeverCommits == viol \cap {"C09_StaleCommit", "C09_StaleRemovesListed"} = {}
 
 (* C16 *)
 Idle(h) == pending[h] = NoCall /\ h \notin crashed
